@@ -12,10 +12,20 @@
     After every step the model state is re-synchronised with the observation, so that
     every step is judged on its own.
 
+    The terminal is the TWO-BUFFER terminal of model/ScreenSession.v: a session starts with
+    whatever earlier output left on it ([XPre]: images printed by an earlier command, by the
+    application itself before start() or between two sessions); the screen is started with
+    either value of urwid's [alternate_buffer] ([XStart alt]) any number of times, possibly as
+    a new screen object ([XNewScreen]).  "Cleared on start / clear" is judged on the buffer the
+    user sees, "cleared on stop" on the buffer the screen ran on, "the placements are those
+    of the canvas just drawn" on the visible buffer with the canvas' rows written from the
+    row where the screen's display begins (row 0 with the alternate buffer; the row of the
+    cursor at start() without it: urwid then addresses rows relatively).
+
     result of a case: 0, or  code + 10 * reason + 1000 * (index of the step). *)
 From Coq Require Import List ZArith Bool Lia Arith.
 Import ListNotations.
-From TI Require Import lib.Term model.Screen.
+From TI Require Import lib.Term model.Screen model.ScreenSession.
 
 Record tobs := mk_obs {
   o_freed : list (nat * Z);      (* widgets finalised during the step, with their z-index *)
@@ -29,14 +39,16 @@ Record tobs := mk_obs {
 }.
 
 Inductive tact :=
-| XDraw (c : canvas) (lay : layout) (bad raised : bool) (out : list stok) (truth : list (list stok))
-| XClear (out : list stok)
-| XStart (out : list stok)
-| XStop (out : list stok)
+| XDraw (c : canvas) (lay : layout) (bad raised : bool) (out : list btok) (truth : list (list stok))
+| XClear (out : list btok)
+| XStart (alt : bool) (out : list btok)      (* screen.start(alternate_buffer=alt) *)
+| XStop (out : list btok)
+| XPre (out : list btok)                      (* written to the terminal by something else while the screen is stopped *)
+| XNewScreen                                  (* the (stopped) screen object is replaced by a new UrwidImageScreen *)
 | XNew (wid : nat) (kitty : bool) (z : option Z)   (* a widget (of any class of the tree) constructed;
                                                        [None]: the constructor raised *)
 | XDel
-| XApi (ws : list (nat * wkind)) (now : bool) (imm out : list stok).
+| XApi (ws : list (nat * wkind)) (now : bool) (imm out : list btok).
                                          (* the public clear_images(ws..., now=now): what went to the
                                             terminal device at once, what was put into the output buffer *)
 
@@ -46,9 +58,13 @@ Record tcase := mk_case { tc_konsole : bool; tc_ksup : bool; tc_ikon : bool; tc_
 
 (** [m_queue]: written to the screen's output buffer and not flushed yet (clear() and
     clear_images(now=False) do not flush; draw_screen / start / stop do) *)
-Record tstate := mk_tstate { m_scr : scr; m_term : pterm; m_alloc : alloc_st; m_live : list (nat * Z);
-                             m_queue : list stok;
-                             m_dirty : bool   (* a public clear_images() call since the last write of the screen *) }.
+Record tstate := mk_tstate { m_scr : scr; m_term : bterm; m_alloc : alloc_st; m_live : list (nat * Z);
+                             m_queue : list btok;
+                             m_dirty : bool;  (* a public clear_images() call since the last write of the screen *)
+                             m_origin : Z     (* the terminal row where the screen's display begins *) }.
+
+(** a run of tokens without buffer switches (keeps the generated case files small) *)
+Definition bts (l : list stok) : list btok := map BT l.
 
 (** *** comparisons *)
 
@@ -109,8 +125,8 @@ Fixpoint truth_toks (y : Z) (rows : list (list stok)) : list stok :=
   | [] => []
   | r :: rest => KCup y 0 :: r ++ truth_toks (y + 1) rest
   end.
-Definition truth_plcs (konsole : bool) (rows : list (list stok)) : list plc :=
-  t_plcs (pexec konsole pterm_init (truth_toks 0 rows)).
+Definition truth_plcs (konsole : bool) (origin : Z) (rows : list (list stok)) : list plc :=
+  t_plcs (pexec konsole pterm_init (truth_toks origin rows)).
 
 (** *** the allocator against an observed construction *)
 Fixpoint z_remove (z : Z) (l : list Z) : list Z :=
@@ -129,8 +145,9 @@ Definition alloc_obs (res : option Z) (s : alloc_st) : option alloc_st :=
 
 (** *** one step *)
 
-Definition resync (st : tstate) (o : tobs) (term : pterm) (canv : option nat) (queue : list stok) (dirty : bool) : tstate :=
-  mk_tstate (mk_scr (o_cviews o) (o_cdis o) (o_wdis o) canv) term (mk_alloc (o_next o) (o_free o)) (o_live o) queue dirty.
+Definition resync (st : tstate) (o : tobs) (term : bterm) (canv : option nat) (queue : list btok) (dirty : bool)
+           (origin : Z) : tstate :=
+  mk_tstate (mk_scr (o_cviews o) (o_cdis o) (o_wdis o) canv) term (mk_alloc (o_next o) (o_free o)) (o_live o) queue dirty origin.
 
 Definition live_eqb (a b : nat * Z) : bool := Nat.eqb (fst a) (fst b) && Z.eqb (snd a) (snd b).
 Definition live_same (a b : list (nat * Z)) : bool :=
@@ -166,12 +183,17 @@ Definition judge_alloc (st : tstate) (a : tact) (o : tobs) : nat * nat :=
   let spec_ok := z_nodup zs && forallb z_ok zs && freed_live in
   ((if model_ok then 0 else 1), (if spec_ok then 0 else 6)).
 
-Definition judge_screen (c : tcase) (st : tstate) (a : tact) (o : tobs) : nat * nat * pterm * option nat * list stok :=
+Definition no_plcs (l : list plc) : bool := match l with [] => true | _ => false end.
+
+Definition judge_screen (c : tcase) (st : tstate) (a : tact) (o : tobs)
+  : nat * nat * bterm * option nat * list btok * Z :=
   let k := tc_konsole c in
   let s := m_scr st in
+  let origin := m_origin st in
   match a with
   | XDraw cv lay bad raised out truth =>
-    let term' := pexec k (m_term st) (m_queue st ++ out) in
+    let term' := bexec k (m_term st) (m_queue st ++ out) in
+    let sout := bstoks out in
     let lay_ok := match cv with
                   | Composite _ sh => wf_layout lay && shards_eqb (shards_of lay) sh
                   | Single _ _ _ => true
@@ -181,7 +203,7 @@ Definition judge_screen (c : tcase) (st : tstate) (a : tact) (o : tobs) : nat * 
       else match draw_screen (tc_fuel c) (tc_ksup c) (tc_ikon c) k cv [] s with
            | None => 3
            | Some (mout, s') =>
-             if negb (dels_same (filter is_big_del mout) (filter is_big_del out)) then 4
+             if negb (dels_same (filter is_big_del mout) (filter is_big_del sout)) then 4
              else if negb (views_same (s_prev s') (o_cviews o)) then 5
              else if negb (Nat.eqb (s_cdis s') (o_cdis o)) then 6
              else if negb (wdis_same (s_wdis s') (o_wdis o)) then 7
@@ -191,7 +213,7 @@ Definition judge_screen (c : tcase) (st : tstate) (a : tact) (o : tobs) : nat * 
     let same := match s_canv s with Some i => Nat.eqb i (canvas_id cv) | None => false end in
     let spec :=
       if raised && negb bad then 1
-      else if negb (bracketed out) then 2
+      else if negb (bracketed sout) then 2
       else if tracking && negb same
               && negb (views_same (match cv with
                                    | Composite _ _ => positions k lay
@@ -203,44 +225,72 @@ Definition judge_screen (c : tcase) (st : tstate) (a : tact) (o : tobs) : nat * 
          clear_images() call that is not a redraw in the sense of the property (the images stay
          cleared until a new canvas is drawn) *)
       else if same && m_dirty st then 0
-      else if negb (plcs_subset (t_plcs term') (truth_plcs k truth)) then 4     (* a ghost *)
-      else if negb (plcs_subset (truth_plcs k truth) (t_plcs term')) then 5     (* an image line missing *)
+      else if negb (plcs_subset (vis_plcs term') (truth_plcs k origin truth)) then 4     (* a ghost *)
+      else if negb (plcs_subset (truth_plcs k origin truth) (vis_plcs term')) then 5     (* an image line missing *)
       else 0 in
-    (model, spec, term', Some (canvas_id cv), [])
-  | XClear out | XStart out | XStop out =>
+    (model, spec, term', Some (canvas_id cv), [], origin)
+  | XClear out | XStart _ out | XStop out =>
     (* clear() only queues its output; start / stop flush *)
     let queued := match a with XClear _ => true | _ => false end in
-    let flushed := pexec k (m_term st) (m_queue st ++ out) in
+    let flushed := bexec k (m_term st) (m_queue st ++ out) in
+    let sout := bstoks out in
+    (* the buffer the terminal showed while the screen ran *)
+    let ran_on := b_alt (m_term st) in
     let '(mout, s') := match a with
-                       | XClear _ => clear_stream (tc_ksup c) s
-                       | XStart _ => start_stream (tc_ksup c) [] s
-                       | _ => stop_stream (tc_ksup c) true [] s      (* urwid 2.6: _stop() calls clear() *)
+                       | XClear _ => let r := clear_stream (tc_ksup c) s in (bts (fst r), snd r)
+                       | XStart alt _ => start_session (tc_ksup c) alt [] s
+                       | _ => stop_session (tc_ksup c) ran_on [] [] s      (* urwid 2.6: _stop() calls clear() *)
                        end in
     let model :=
-      if negb (dels_same (filter is_big_del mout) (filter is_big_del out)) then 4
+      if negb (dels_same (filter is_big_del (bstoks mout)) (filter is_big_del sout)) then 4
       else if negb (Nat.eqb (s_cdis s') (o_cdis o)) then 6
       else if negb (wdis_same (s_wdis s') (o_wdis o)) then 7
       else if negb (views_same (s_prev s') (o_cviews o)) then 5
       else 0 in
-    let spec := if tc_ksup c && negb (match t_plcs flushed with [] => true | _ => false end) then 7 else 0 in
-    if queued then (model, spec, m_term st, s_canv s, m_queue st ++ out)
-    else (model, spec, flushed, s_canv s, [])
+    (* cleared on start / clear: nothing on the buffer the user sees; cleared on stop: nothing
+       on the buffer the screen ran on *)
+    let left := match a with
+                | XStop _ => buf_plcs ran_on flushed
+                | _ => vis_plcs flushed
+                end in
+    let spec := if tc_ksup c && negb (no_plcs left) then 7 else 0 in
+    (* where the display begins: row 0 of the alternate buffer; without it, the row of the cursor *)
+    let origin' := match a with
+                   | XStart alt _ => if alt then 0%Z else t_r (b_vis flushed)
+                   | _ => origin
+                   end in
+    if queued then (model, spec, m_term st, s_canv s, m_queue st ++ out, origin')
+    else (model, spec, flushed, s_canv s, [], origin')
   | XApi ws now imm out =>
     let '(mi, mq, s') := api_clear_images (tc_ksup c) ws now s in
     let model :=
-      if negb (dels_same (filter is_big_del mi) (filter is_big_del imm)) then 4
-      else if negb (dels_same (filter is_big_del mq) (filter is_big_del out)) then 4
+      if negb (dels_same (filter is_big_del mi) (filter is_big_del (bstoks imm))) then 4
+      else if negb (dels_same (filter is_big_del mq) (filter is_big_del (bstoks out))) then 4
       else if negb (Nat.eqb (s_cdis s') (o_cdis o)) then 6
       else if negb (wdis_same (s_wdis s') (o_wdis o)) then 7
       else if negb (views_same (s_prev s') (o_cviews o)) then 5
       else 0 in
-    (model, 0, pexec k (m_term st) imm, s_canv s, m_queue st ++ out)
+    (model, 0, bexec k (m_term st) imm, s_canv s, m_queue st ++ out, origin)
+  | XPre out =>
+    (* foreign output changes the terminal, not the screen *)
+    let model :=
+      if negb (Nat.eqb (s_cdis s) (o_cdis o)) then 6
+      else if negb (views_same (s_prev s) (o_cviews o)) then 5
+      else 0 in
+    (model, 0, bexec k (m_term st) out, s_canv s, m_queue st, origin)
+  | XNewScreen =>
+    (* the new object tracks nothing and has drawn no canvas; the disguises are class / widget state *)
+    let model :=
+      if negb (Nat.eqb (s_cdis s) (o_cdis o)) then 6
+      else if negb (views_same [] (o_cviews o)) then 5
+      else 0 in
+    (model, 0, m_term st, None, [], origin)
   | XNew _ _ _ | XDel =>
     let model :=
       if negb (Nat.eqb (s_cdis s) (o_cdis o)) then 6
       else if negb (views_same (s_prev s) (o_cviews o)) then 5
       else 0 in
-    (model, 0, m_term st, s_canv s, m_queue st)
+    (model, 0, m_term st, s_canv s, m_queue st, origin)
   end.
 
 Record verdict := mk_verdict { v_mis : option (nat * nat); v_fail : option (nat * nat) }.
@@ -252,7 +302,7 @@ Fixpoint judge_steps (c : tcase) (st : tstate) (i : nat) (steps : list tstep) (v
     let a := ts_act stp in
     let o := ts_obs stp in
     let '(m1, s1) := judge_alloc st a o in
-    let '(m2, s2, term', canv, queue') := judge_screen c st a o in
+    let '(m2, s2, term', canv, queue', origin') := judge_screen c st a o in
     let m := if Nat.eqb m2 0 then (if Nat.eqb m1 0 then 0 else 8) else m2 in
     let s := if Nat.eqb s2 0 then s1 else s2 in
     let v' := mk_verdict (match v_mis v with Some x => Some x | None => if Nat.eqb m 0 then None else Some (i, m) end)
@@ -263,14 +313,14 @@ Fixpoint judge_steps (c : tcase) (st : tstate) (i : nat) (steps : list tstep) (v
                     if raised then m_dirty st
                     else if match s_canv (m_scr st) with Some j => Nat.eqb j (canvas_id cv) | None => false end
                          then m_dirty st else false
-                  | XClear _ | XStart _ | XStop _ => false
+                  | XClear _ | XStart _ _ | XStop _ => false
                   | _ => m_dirty st
                   end in
-    judge_steps c (resync st o term' canv queue' dirty') (S i) rest v'
+    judge_steps c (resync st o term' canv queue' dirty' origin') (S i) rest v'
   end.
 
 Definition check (c : tcase) : nat :=
-  let st0 := mk_tstate scr_init pterm_init (mk_alloc (tc_next c) []) [] [] false in
+  let st0 := mk_tstate scr_init bterm_init (mk_alloc (tc_next c) []) [] [] false 0%Z in
   let v := judge_steps c st0 0 (tc_steps c) (mk_verdict None None) in
   match v_fail v, v_mis v with
   | Some (i, r), None => 2 + 10 * r + 1000 * i
